@@ -17,9 +17,14 @@ place_demo() {
   for f in $demo_files; do
     # find target dir from DEMO.md: first path-looking token containing the file name, else package clause heuristic
     base=$(basename "$f")
-    tgt=$(grep -o "[a-zA-Z0-9_./-]*/$base" "$OUT/DEMO.md" 2>/dev/null | grep -v '^/tmp' | head -1)
-    if [ -z "$tgt" ]; then tgt=$(grep -o "pkg/[a-zA-Z0-9_/-]*" "$OUT/DEMO.md" | head -1)/$base; fi
-    tgt=${tgt#./}
+    tgt=$(cat "$OUT/DEMO.md" "$OUT/meta.json" 2>/dev/null | grep -oE "(pkg|cmd|tests)/[A-Za-z0-9_/.-]*/$base" | head -1)
+    if [ -z "$tgt" ]; then
+      d=$(cat "$OUT/DEMO.md" "$OUT/meta.json" 2>/dev/null | grep -oE "\./(pkg|cmd|tests)/[A-Za-z0-9_/.-]*" | head -1); d=${d%/}
+      if [ -z "$d" ]; then d=$(grep -oE "(pkg|cmd|tests)/[A-Za-z0-9_/-]*" "$OUT/DEMO.md" | head -1); fi
+      tgt="${d#./}/$base"
+    fi
+    case "$tgt" in /*|"") echo "bad target '$tgt' for $f" >>"$LOG"; continue;; esac
+    [ -d "$(dirname "$tgt")" ] || { echo "target dir missing: $tgt" >>"$LOG"; continue; }
     mkdir -p "$(dirname "$tgt")"; cp "$f" "$tgt"; echo "placed $f -> $tgt" >>"$LOG"
     demo_pkgs="$demo_pkgs ./$(dirname "$tgt")"
   done
@@ -27,17 +32,19 @@ place_demo() {
 run_demo() {
   rc=0
   for p in $(echo $demo_pkgs | tr ' ' '\n' | sort -u); do
-    go test -p 4 -count=1 -run 'Demo' "$p" >>"$LOG" 2>&1 || rc=1
+    o=$(go test -p 4 -count=1 -run 'Demo' "$p" 2>&1); r=$?; echo "$o" >>"$LOG"
+    [ $r -ne 0 ] && rc=1
+    echo "$o" | grep -q "no tests to run" && { echo "NO DEMO TEST RAN in $p" >>"$LOG"; rc=3; }
   done
   return $rc
 }
 # 1. unpatched: demo passes
 place_demo
-if run_demo; then A=pass; else A=FAIL; fi
+run_demo; case $? in 0) A=pass;; 3) A=NOT-RUN;; *) A=FAIL;; esac
 # 2. patched: build, existing tests, demo fails
 git apply "$OUT/patch.diff"
 if go build -p 4 ./... >>"$LOG" 2>&1 && go vet -p 4 $PKGS >>"$LOG" 2>&1; then B=builds; else B=BUILD-FAIL; fi
-if run_demo; then C=PASS-WITH-PATCH; else C=fails-with-patch; fi
+run_demo; case $? in 0) C=PASS-WITH-PATCH;; 3) C=NOT-RUN;; *) C=fails-with-patch;; esac
 # existing tests: remove demo first
 for f in $demo_files; do find . -name "$(basename $f)" -not -path './.git/*' -delete; done
 IMPORTERS=""
